@@ -196,6 +196,41 @@ class EarlyReturn(ast.NodeTransformer):
     visit_AsyncFunctionDef = _fn
 
 
+class Delegate(ast.NodeTransformer):
+    """every plain instance method `m(self, a, b=1)` of a class (no decorators, not a dunder, no generator, no nested
+    `nonlocal`) keeps its signature and docstring but hands its work to a new private method:
+    `def m(self, a, b=1): return self._mm_do_m(a, b)` + `def _mm_do_m(self, a, b=1): BODY`"""
+
+    def visit_ClassDef(self, node):
+        self.generic_visit(node)
+        out = []
+        for st in node.body:
+            out.append(st)
+            if not isinstance(st, ast.FunctionDef) or st.decorator_list or st.name.startswith("__"):
+                continue
+            a = st.args
+            if a.vararg or a.kwarg or a.kwonlyargs or a.posonlyargs or not a.args or a.args[0].arg != "self":
+                continue
+            if any(isinstance(x, (ast.Yield, ast.YieldFrom, ast.Nonlocal, ast.Global)) for x in ast.walk(st)):
+                continue
+            if any(isinstance(x, ast.Name) and x.id in ("super", "__class__") for x in ast.walk(st)):
+                continue
+            body = list(st.body)
+            doc = []
+            if body and isinstance(body[0], ast.Expr) and isinstance(body[0].value, ast.Constant) and isinstance(body[0].value.value, str):
+                doc, body = body[:1], body[1:]
+            if not body or (len(body) == 1 and isinstance(body[0], (ast.Pass, ast.Raise))):
+                continue
+            impl = ast.FunctionDef(name=f"_mm_do_{st.name}", args=st.args, body=body, decorator_list=[], returns=st.returns,
+                                   type_comment=None, type_params=[])
+            call = ast.Call(func=ast.Attribute(value=ast.Name(id="self", ctx=ast.Load()), attr=impl.name, ctx=ast.Load()),
+                            args=[ast.Name(id=x.arg, ctx=ast.Load()) for x in a.args[1:]], keywords=[])
+            st.body = doc + [ast.Return(value=call)]
+            out.append(impl)
+        node.body = out
+        return node
+
+
 def hoist_final_attrs(src: str) -> str:
     """In every method, `self.A` for an attribute A that is assigned only in __init__ of its class (a final reference) and is
     read at least twice in the method is read once into a local `A_mm` at the top of the method."""
@@ -296,7 +331,7 @@ def transform(kind: str, src: str, filename: str) -> str:
     if kind == "hoist":
         return hoist_final_attrs(src)
     tree = ast.parse(src)
-    tree = {"flipcmp": FlipCmp, "ifswap": IfSwap, "nestand": NestAnd, "retlocal": RetLocal, "augassign": AugToAssign, "isnot": IsNot, "kwargs": KwArgs, "earlyreturn": EarlyReturn, "condlocal": CondLocal}[kind]().visit(tree)
+    tree = {"flipcmp": FlipCmp, "ifswap": IfSwap, "nestand": NestAnd, "retlocal": RetLocal, "augassign": AugToAssign, "isnot": IsNot, "kwargs": KwArgs, "earlyreturn": EarlyReturn, "condlocal": CondLocal, "delegate": Delegate}[kind]().visit(tree)
     ast.fix_missing_locations(tree)
     return ast.unparse(tree)
 
@@ -344,7 +379,8 @@ def main():
                 worst = max(worst, rc)
         return worst
     finally:
-        shutil.rmtree(td, ignore_errors=True)
+        if not os.environ.get("METAMORPH_KEEP"):
+            shutil.rmtree(td, ignore_errors=True)
 
 
 if __name__ == "__main__":
